@@ -112,6 +112,9 @@ def gen_string(rng, dialect, width):
         hz = ["#5", "#", "# note", "/*", "*/", "END", "End", "END_GROUP", "=", "x=1",
               "GROUP = g", "-", "--", "(", ")", "{", "}", ";", "&", "flat-field",
               "<m>", ","]
+        # "words" that Python (textwrap, str.split) takes for white space but
+        # the dialect does not
+        hz += ["\xa0", "\xa0x"] if non_ascii else ["\x1c", "\x1e", "\x1fx"]
         words = [rng.choice(hz) if rng.random() < 0.4 else w() for _ in range(16)]
         return Leaf(w() + " " + " ".join(words), "str:long-with-line-start-hazard-words")
     if r < 0.88:
@@ -139,7 +142,8 @@ def gen_string(rng, dialect, width):
                 rng.choice(["caf\xe9", "\xb5m", "Δv"])
         return Leaf(bad, "str:outside-charset", rep=False)
     if r < 0.96 and dialect in ("ODL", "PDS3"):
-        return Leaf(rng.choice(["a\x01b", "\x7f", "a\x1bb"]), "str:ascii-control")
+        return Leaf(rng.choice(["a\x01b", "\x7f", "a\x1bb", "a\x1cb", "\x1f x",
+                                "x \x1d"]), "str:ascii-control")
     return Leaf(w() + str(rng.randint(0, 99)), "str:identifier")
 
 
